@@ -543,10 +543,10 @@ func getSnapshotCount(ctx storage.Context) int {
 // `Snapshot` method can return invalid results for `diff = new-old` epochs
 // until `diff` epochs have passed.
 //
-// Count MUST NOT be negative.
+// Count MUST be positive.
 func UpdateSnapshotCount(count int) {
 	common.CheckAlphabetWitness()
-	if count < 0 {
+	if count <= 0 {
 		panic("count must be positive")
 	}
 	ctx := storage.GetContext()
